@@ -254,6 +254,15 @@ def _with_order(prev):
 
 
 EXTRA_CHECKS.update({"C18": _c18, "C16": _c16, "C20": _c20, "C09": _c09, "C08": _c08, "C15": _c15})
+def _c10(tier="quick", seed=0):
+    """the restart entry point hands the requested year and the parameter set on to Initialization.from_result (whose loop-body
+    contract saves the state at the index of THAT year), and apply_initialization hands the population on to Initialization.apply"""
+    out = flow.callsites_pass("parameters:ParameterSet.set_initialization", "from_result", "year", "year")
+    out += flow.callsites_pass("parameters:ParameterSet.set_initialization", "from_result", "res", "res")
+    return out
+
+
+EXTRA_CHECKS["C10"] = _c10
 EXTRA_CHECKS["C01"] = _with_order(EXTRA_CHECKS.get("C01"))
 EXTRA_CHECKS["C06"] = _with_order(EXTRA_CHECKS.get("C06"))
 EXTRA_CHECKS["C04"] = _with_order(EXTRA_CHECKS.get("C04"))
